@@ -584,3 +584,8 @@ def run(chk, replay=None):
     chk.assume("a reference to a missing script that the written MSG table does not need (unused default, key beyond table_len) is not decided")
     chk.assume("sprite/object tables are ordered maps with distinct keys inside one object (duplicate keys are not generated)")
     chk.assume("the layout readers in checks/binlayout.py locate the tables correctly (field order/widths only)")
+    if not replay:
+        # growth beyond the listed property: the compile pipelines that produced these files ran their passes in
+        # an order the documented requires/provides machine (spec/Pipeline.tla) allows -- recorded via pass hooks
+        from . import extra_pipeline
+        extra_pipeline.run(chk)
